@@ -84,6 +84,7 @@ type vRaftOpts struct {
 	leader  bool // build leader state
 	anyPV   bool // protocol version symbolic in 2..3 (else 3)
 	mono    bool // monotonic log store
+	monoShim bool // the store implements MonotonicLogStore but answers IsMonotonic() == false (as LogCache over a plain store)
 	shaped  bool // concrete log/snapshot shape relative to the base (case split), symbolic content
 	splitCommitted bool // the committed configuration has its own symbolic suffrages (a change may be in flight)
 	commitTracking bool
@@ -146,7 +147,9 @@ func vNewRaft(tag string, o vRaftOpts) (*Raft, *vEnv) {
 		mainThreadSaturation:  newSaturationMetric([]string{"raft", "thread", "main", "saturation"}, 1*time.Second),
 	}
 	if o.mono {
-		r.logs = mMonoLogStore{env.logs}
+		r.logs = mMonoLogStore{mLogStore: env.logs}
+	} else if o.monoShim {
+		r.logs = mMonoLogStore{mLogStore: env.logs, notMonotonic: true}
 	} else {
 		r.logs = env.logs
 	}
